@@ -14,9 +14,9 @@ from concurrent.futures import ProcessPoolExecutor
 from . import tlc
 from .common import Check, MachineryFailure
 
-PAIRS_QUICK = [("small", "small", 3), ("free", "free", 3), ("free", "small", 3), ("call", "ctx", 2), ("tree", "call", 1),
+PAIRS_QUICK = [("small", "small", 3), ("shared", "shared", 2), ("free", "free", 3), ("free", "small", 3), ("call", "ctx", 2), ("tree", "call", 1),
                ("tree", "tree", 1), ("ctx", "tree", 1)]
-PAIRS_THOROUGH = [("small", "small", 5), ("free", "free", 4), ("free", "small", 4), ("call", "ctx", 2), ("tree", "call", 2),
+PAIRS_THOROUGH = [("small", "small", 5), ("shared", "shared", 3), ("shared", "call", 2), ("free", "free", 4), ("free", "small", 4), ("call", "ctx", 2), ("tree", "call", 2),
                   ("tree", "tree", 2), ("ctx", "tree", 2), ("call", "call", 2), ("free", "tree", 2), ("free", "call", 2)]
 # statement granularity inside the storage module (a switch between two statements of push / pop / set ...)
 FINE_QUICK = [("call", "call", 1), ("small", "ctx", 1), ("call", "tree", 1)]
